@@ -48,6 +48,9 @@ FLAGGED = (
     b"cfoo.bar\nBaz\n.",
     b"cverif_sink\nsink\n)R0cos\ngetpid\n)R0cbuiltins\neval\n(S'2'\ntR.",
     b"cdatetime\ndate\n.",
+    # PROTO opcodes of every version in odd places (late, repeated, inside a MARK)
+    b"K\x010\x80\x01K\x02.", b"(\x80\x00K\x01K\x02t.", b"N0\x80\x01N.", b"\x80\x02N0\x80\x00N.",
+    b"\x80\x00\x80\x00N.", b"\x80\x01N0\x80\x01N.", b"N0\x80\x05N.", b"\x80\x00N.", b"\x80\x01]q\x00.",
 )
 
 
